@@ -10,6 +10,7 @@ import math
 import numpy as np
 
 from .common import floatbits, parse_floatbits, close, all_close, quiet, frs, parse_nums, ints
+from .common import guarded
 from skgstat import models, Variogram
 
 INFO = dict(
@@ -42,6 +43,7 @@ def lags(rng, r):
     return sorted(set(float(h) for h in hs))
 
 
+@guarded
 def check_model(ctx, name):
     rng = ctx.rng
     f = getattr(models, name)
@@ -137,6 +139,7 @@ def check_model(ctx, name):
 NARGS = dict(spherical=2, exponential=2, gaussian=2, cubic=2, stable=3, matern=3)
 
 
+@guarded
 def check_sum(ctx):
     rng = ctx.rng
     k = int(rng.integers(2, 4))
@@ -181,6 +184,37 @@ def check_sum(ctx):
         if not close(float(arr[0]), got, rel=1e-13):
             ctx.violation('sum-array', '%s: array call differs from scalar call' % mname, case)
             break
+    # a sum-model function that was handed out stays that sum: neither another '+'-model set on the same
+    # instance (different parameter layout) nor one set on a clone may change what it computes
+    held = V._model
+    with quiet():
+        C = V.clone()
+        held_clone = C._model
+    k2 = 2 if k == 3 else 3
+    other = '+'.join(str(x) for x in rng.choice(['stable', 'matern', 'spherical', 'cubic'], size=k2))
+    try:
+        with quiet():
+            V.set_model(other)
+            C.set_model('+'.join(reversed(other.split('+'))))
+    except (ValueError, AttributeError) as e:
+        ctx.reject('set_model:' + type(e).__name__)
+        return
+    ctx.count('sum_held_after_model_change')
+    for h in [0.0, 7.5, 80.0]:
+        want = math.fsum(float(getattr(models, n)(h, *p, 0.0)) for n, p in comp) + nug
+        for tag, f in (('same instance', held), ('clone', held_clone)):
+            try:
+                with quiet():
+                    got = float(f(h, *args))
+            except Exception as e:
+                ctx.violation('sum-held', '%s: the function handed out before model=%r was set on the %s now raises %s: %s'
+                              % (mname, other, tag, type(e).__name__, str(e)[:100]), dict(case, other=other))
+                return
+            if not close(got, want, rel=1e-12):
+                ctx.violation('sum-held', '%s at h=%r: the function handed out before model=%r was set on the %s now '
+                              'gives %r, components + nugget = %r' % (mname, h, other, tag, got, want),
+                              dict(case, other=other))
+                return
 
 
 def run(ctx):
